@@ -1,117 +1,126 @@
 import BfeVerif.C40.Proofs
 /-!
   C40 — the SPDY server enforces stream and flow-control rules.  Property theorems only.
-  The theorems are about `step` (one client frame processed by the serve loop) and `flowAdd`/`flowTake`
-  (flow.go); the correspondence run ties `step` to a real server connection driven over net.Pipe.
+  `runScript` = any sequence of client frames and (scripted) handler commands, each run to quiescence; the
+  correspondence run ties it to a real server connection driven over net.Pipe, and the driver's client-side monitor
+  judges the same rules on the implementation's own output.
 -/
 namespace BfeVerif.C40
 
-def I32 (x : Int) : Prop := -2147483648 ≤ x ∧ x ≤ 2147483647
+/-- **flow.add (fixed)**: it succeeds exactly when the sum is representable (so a window never exceeds 2^31-1 and
+    never wraps), and then the window is exactly the sum — for every int32 window, negative ones included. -/
+theorem C40_flow_add_exact (f n f' : Int) (hf : I32 f) (hn : I32 n) :
+    flowAdd f n = some f' ↔ (f' = f + n ∧ I32 (f + n)) := by
+  constructor
+  · intro h
+    have := flowAdd_sound f n f' hf hn h
+    exact ⟨this.1, this.1 ▸ this.2⟩
+  · rintro ⟨rfl, hs⟩
+    exact flowAdd_some f n hf hn hs
 
-/-- `flow.add` never produces a wrong window: if it reports success (and the true sum is representable) the new
-    window is exactly the sum and does not exceed 2^31-1. -/
-theorem C40_flow_add_sound (f n f' : Int) (hf : I32 f) (hn : I32 n) (hs : -2147483648 ≤ f + n)
-    (h : flowAdd f n = some f') : f' = f + n ∧ f' ≤ 2147483647 := by
-  unfold I32 at hf hn
-  unfold flowAdd at h
-  by_cases hgt : n > wrap32 (2147483647 - f)
-  · simp [hgt] at h
-  · simp only [hgt, if_false, Option.some.injEq] at h
-    subst h
-    unfold wrap32 at hgt ⊢
-    omega
-
-/-- Full statement: `add` succeeds exactly when the sum does not exceed 2^31-1.  It holds for non-negative
-    windows (`_partial`); `C40_witness_flow_add_negative` shows it fails for a negative one. -/
-theorem C40_flow_add_complete_partial (f n : Int) (hf : 0 ≤ f ∧ f ≤ 2147483647) (hn : I32 n) :
-    (flowAdd f n).isSome = true ↔ f + n ≤ 2147483647 := by
-  unfold I32 at hn
-  unfold flowAdd
-  by_cases hgt : n > wrap32 (2147483647 - f)
-  · simp only [hgt, if_true]
-    unfold wrap32 at hgt
-    simp
-    omega
-  · simp only [hgt, if_false]
-    unfold wrap32 at hgt
-    simp
-    omega
-
-/-- **Witness (known finding `flow-add-negative-window`)**: a window of -1 (possible after SETTINGS shrank the
-    initial window) refuses an update of 1 although the sum 0 is far below 2^31-1 (`remain` wraps around). -/
-theorem C40_witness_flow_add_negative : flowAdd (-1) 1 = none ∧ (-1 : Int) + 1 ≤ 2147483647 := by
+/-- **Witness of the fixed defect** (`flow-add-negative-window`): the old test `n > (1<<31-1) - f.n` wraps for a
+    negative window and refused every update, e.g. window -1, update 1; the fixed code accepts it. -/
+theorem C40_witness_flow_add_old_negative : flowAddOld (-1) 1 = none ∧ flowAdd (-1) 1 = some 0 := by
   constructor <;> decide
 
-/-- **No panic in `flow.take`**: the serve loop never calls `take` with more than `available()`
-    (`panic("internal error: took too much")` is unreachable from client frames), for every state and frame. -/
+/-- **Trace invariant**: after ANY sequence of client frames and handler commands (any visiting order of the
+    scheduler), on every stream the advertised inbound window is never negative and, together with the bytes
+    accepted and not yet read, never exceeds the 65536 granted; every outbound window and the connection windows
+    are int32 values (no wrap-around, never above 2^31-1); the ids of the streams created are odd, bounded by the
+    highest id seen, and strictly increasing. -/
+theorem C40_trace_invariant (adv : Nat) (rev : Bool) (evs : List Ev) :
+    Inv (runScript rev { adv := adv } evs).2.2 :=
+  inv_run rev _ evs (inv_init adv)
+
+/-- **Stream ids** (corollary): over any trace the created stream ids are strictly increasing and odd. -/
+theorem C40_ids (adv : Nat) (rev : Bool) (evs : List Ev) :
+    (runScript rev { adv := adv } evs).2.2.opened.Pairwise (· < ·) ∧
+      ∀ x ∈ (runScript rev { adv := adv } evs).2.2.opened, x % 2 = 1 :=
+  ⟨(C40_trace_invariant adv rev evs).6, fun x hx => ((C40_trace_invariant adv rev evs).5 x hx).2⟩
+
+/-- a SYN_STREAM with an even id or an id below the highest seen is a connection error (GOAWAY PROTOCOL_ERROR),
+    and creates nothing. -/
+theorem C40_bad_id_rejected (s : State) (id : Nat) (fin : Bool) (h0 : id ≠ 0) (hb : id % 2 ≠ 1 ∨ id < s.maxId) :
+    (step s (.syn id fin)).out = [.goaway s.maxId 1] ∧ (step s (.syn id fin)).st.opened = s.opened := by
+  have hb' : (id % 2 ≠ 1 ∨ id < ({ s with kick := false } : State).maxId) := hb
+  simp only [step, h0, if_false, hb', if_true, goAway]
+  constructor <;> first | rfl | trivial
+
+/-- **No panic in `flow.take` from client frames**: processData never calls `take` with more than `available()`. -/
 theorem C40_no_panic (s : State) (e : Ev) : (step s e).status ≠ .panic := by
   cases e <;> simp only [step, goAway, reset] <;> (repeat' split) <;> simp_all [flowTake] <;> omega
 
-/-- **Inbound windows**: a DATA frame with payload that is accepted (no RST_STREAM) fits both the stream's and the
-    connection's advertised window, and both are debited by exactly its length. -/
-theorem C40_data_within_windows (s : State) (id len : Nat) (fin : Bool) (st : St)
+/-- **Inbound windows**: a DATA frame with payload that is accepted (no RST_STREAM) fits the stream's and the
+    connection's advertised window (with the trace invariant: both stay non-negative). -/
+theorem C40_in_window (s : State) (id len : Nat) (fin : Bool) (st : St)
     (hid : id ≠ 0) (hf : find s id = some st) (ho : st.isOpen = true) (hl : len > 0)
-    (hi : I32 st.inflow) (hc : I32 s.connIn)
     (hacc : (step s (.data id len fin)).out = []) :
-    (len : Int) ≤ st.inflow ∧ (len : Int) ≤ s.connIn ∧
-      (step s (.data id len fin)).st.connIn = s.connIn - len := by
-  unfold I32 at hi hc
-  simp only [step, hid, if_false, hf, ho, Bool.not_true, Bool.false_eq_true, hl, if_true, reset] at hacc ⊢
+    (len : Int) ≤ st.inflow ∧ (len : Int) ≤ s.connIn := by
+  have hf' : find { s with kick := false } id = some st := hf
+  simp only [step, hid, if_false, hf', ho, Bool.not_true, Bool.false_eq_true, hl, if_true, reset] at hacc
   by_cases hav : available st.inflow s.connIn < (len : Int)
   · simp [hav] at hacc
-  · simp only [hav, if_false] at hacc ⊢
-    have hav' : ¬ ((len : Int) > available st.inflow s.connIn) := by omega
-    simp only [flowTake, hav', if_false, upd]
-    unfold available at hav
-    unfold wrap32
-    split at hav <;> refine ⟨by omega, by omega, by omega⟩
+  · unfold available at hav
+    split at hav <;> omega
 
-/-- **Frames for closed / never opened streams**: DATA for a stream that is not in the stream table is answered
-    with RST_STREAM(INVALID_STREAM) and changes nothing (no window is debited). -/
-theorem C40_data_unknown_stream (s : State) (id len : Nat) (fin : Bool) (hid : id ≠ 0) (hf : find s id = none) :
-    (step s (.data id len fin)).out = [.rst id 2] ∧ (step s (.data id len fin)).st = s := by
-  simp [step, hid, hf, reset, close]
+/-- **Frames for closed / never opened streams** are answered with RST_STREAM(INVALID_STREAM), half-closed
+    (remote) ones with RST_STREAM(STREAM_ALREADY_CLOSED); no window is debited. -/
+theorem C40_closed_streams (s : State) (id len : Nat) (fin : Bool) (hid : id ≠ 0) :
+    (find s id = none → (step s (.data id len fin)).out = [.rst id 2] ∧
+        (step s (.data id len fin)).st.connIn = s.connIn) ∧
+    (∀ st, find s id = some st → st.isOpen = false → (step s (.data id len fin)).out.head? = some (.rst id 9)) := by
+  constructor
+  · intro hf
+    have hf' : find { s with kick := false } id = none := hf
+    simp [step, hid, hf', reset, close, closeOut]
+  · intro st hf ho
+    have hf' : find { s with kick := false } id = some st := hf
+    simp [step, hid, hf', ho, reset]
 
-/-- DATA for a half-closed (remote) stream is answered with RST_STREAM(STREAM_ALREADY_CLOSED). -/
-theorem C40_data_half_closed (s : State) (id len : Nat) (fin : Bool) (st : St) (hid : id ≠ 0)
-    (hf : find s id = some st) (ho : st.isOpen = false) :
-    (step s (.data id len fin)).out = [.rst id 9] := by
-  simp [step, hid, hf, ho, reset]
+/-- **C40_out_window**: whenever the scheduler emits a DATA chunk for a handler's queued write, the chunk is
+    positive, at most 16384, and at most BOTH the stream's and the connection's outbound window at that moment
+    (so `flow.take` cannot panic and the client's windows are never overdrawn); for every state, hence on every trace. -/
+theorem C40_out_window (s : State) (st : St) (h : H) (r : Nat) (q : List Cmd) (s' : State) (o : List Out)
+    (hq : h.queue = .send r :: q) (hr : 0 < r) (ha : st.alive = true)
+    (hm : microH s st h = some (s', o)) :
+    ∃ c : Nat, o = [.data h.id c false] ∧ 0 < c ∧ (c : Int) ≤ st.flow ∧ (c : Int) ≤ s.connFlow ∧ (c : Int) ≤ 16384 ∧
+      c ≤ r := by
+  unfold microH at hm
+  simp only [hq, ha, Bool.not_true, Bool.false_eq_true, if_false] at hm
+  split at hm
+  · rename_i hk
+    simp only [Option.some.injEq, Prod.mk.injEq] at hm
+    have hb := allowed_le s st
+    have hpos := hk.2
+    have hcast : ((allowed s st).toNat : Int) = allowed s st := Int.toNat_of_nonneg (by omega)
+    have hle : min r (allowed s st).toNat ≤ (allowed s st).toNat := Nat.min_le_right _ _
+    have hgt : 0 < min r (allowed s st).toNat := by
+      apply Nat.lt_min.mpr
+      exact ⟨hr, by omega⟩
+    refine ⟨min r (allowed s st).toNat, hm.2.symm, hgt, ?_, ?_, ?_, Nat.min_le_left _ _⟩ <;> omega
+  · cases hm
 
-/-- **Stream ids**: the highest stream id only grows, and it changes only for an odd id above every id seen so far;
-    an even id or a lower id is a connection error (GOAWAY PROTOCOL_ERROR). -/
-theorem C40_ids (s : State) (id : Nat) (fin : Bool) :
-    s.maxId ≤ (step s (.syn id fin)).st.maxId ∧
-    ((step s (.syn id fin)).st.maxId ≠ s.maxId → id % 2 = 1 ∧ s.maxId < id ∧ (step s (.syn id fin)).st.maxId = id) ∧
-    (id ≠ 0 → (id % 2 ≠ 1 ∨ id < s.maxId) → (step s (.syn id fin)).out = [.goaway s.maxId 1]) := by
-  simp only [step, goAway, reset, close]
-  repeat' split
-  all_goals simp_all
-  all_goals omega
+/-- **Replenishment**: a handler read of `k` bytes emits WINDOW_UPDATE(connection, k), and for a stream that is
+    still open WINDOW_UPDATE(stream, k), with `k` at most what is buffered: the windows are replenished by the bytes
+    consumed, no more (the trace invariant bounds the result by the initial grant). -/
+theorem C40_replenish (s : State) (st : St) (h : H) (n : Nat) (q : List Cmd) (s' : State) (o : List Out)
+    (hq : h.queue = .read n :: q) (hn : n ≠ 0) (hb : st.hasBody = true) (ha : st.alive = true) (hbuf : st.buf > 0)
+    (hm : microH s st h = some (s', o)) :
+    o = [.wu 0 (min n st.buf)] ++ (if st.isOpen then [.wu h.id (min n st.buf)] else []) ∧ min n st.buf ≤ st.buf := by
+  unfold microH at hm
+  simp only [hq, hn, hb, ha, Bool.not_true, Bool.false_eq_true, or_self, if_false, hbuf, if_true] at hm
+  simp only [Option.some.injEq, Prod.mk.injEq] at hm
+  exact ⟨hm.2.symm, Nat.min_le_right _ _⟩
 
-/-- **Outbound windows**: a WINDOW_UPDATE that would push a window above 2^31-1 is refused — the stream is reset
-    (FLOW_CONTROL_ERROR), the connection-level one ends the session (GOAWAY 7); an accepted one adds exactly delta. -/
-theorem C40_window_update_conn (s : State) (delta : Nat) (hd : delta < 2147483648)
-    (hc : 0 ≤ s.connFlow ∧ s.connFlow ≤ 2147483647) :
-    (s.connFlow + delta ≤ 2147483647 →
-      (step s (.wu 0 delta)).st.connFlow = s.connFlow + delta ∧ (step s (.wu 0 delta)).out = []) ∧
-    (s.connFlow + delta > 2147483647 → (step s (.wu 0 delta)).out = [.goaway s.maxId 7]) := by
-  have hm : (delta % 2147483648 : Nat) = delta := Nat.mod_eq_of_lt hd
-  simp only [step, ne_eq, not_true_eq_false, if_false, hm, goAway, flowAdd]
-  by_cases hgt : (delta : Int) > wrap32 (2147483647 - s.connFlow)
-  · simp only [hgt, if_true]
-    unfold wrap32 at hgt
-    constructor
-    · intro h; omega
-    · intro _; trivial
-  · simp only [hgt, if_false]
-    unfold wrap32 at hgt ⊢
-    constructor
-    · intro h; refine ⟨?_, trivial⟩; omega
-    · intro h; omega
+/-- every `panic(...)` call of the CURRENT package bfe_spdy (regenerated list) has a disposition in `panicTable`:
+    modelled and shown unreachable, or outside this model for the recorded reason.  A new or reworded panic site
+    makes this theorem fail until it is looked at. -/
+theorem C40_panic_sites_classified :
+    BfeVerif.Generated.C40.panicSites.all classifySite = true := by decide
 
-example : (step {} (.syn 1 false)).st.streams.length = 1 := by decide
-example : (step (step {} (.syn 1 false)).st (.data 1 65537 false)).out = [.rst 1 7] := by decide
+example : (stepQ false (stepQ false {} (.syn 1 false)).st (.hcmd 1 (.write 10))).out = [.reply 1 false, .data 1 10 false] := by
+  decide
+example : (stepQ false (stepQ false {} (.syn 1 false)).st (.data 1 65537 false)).out = [.rst 1 7] := by decide
 example : I32 65536 := by unfold I32; omega
 
 end BfeVerif.C40
